@@ -966,7 +966,12 @@ def cli_option_stream(chk, rng, stats):
              ("%Count(step=2)", "%N()%N()_%Name()", "{P}{P}_%Name()"),
              ("%Upper{%Base()}", "%Lower{%N()}%Ext()", "%Lower{{P}}%Ext()"),
              ("%Base()-%Count(start=5)", "%N()|%Upper()", "{P}|%Upper()"),
-             ("x%Count()", "%Upper{%N()_%N()}%Ext()", "%Upper{{P}_{P}}%Ext()")]
+             ("x%Count()", "%Upper{%N()_%N()}%Ext()", "%Upper{{P}_{P}}%Ext()"),
+             # constant patterns (no tag at all) with escapes, and constant patterns that are not valid templates
+             ("\\{draft\\}", "%N()_%Name()", "{P}_%Name()"), ("a\\|b", "%N()%Ext()", "{P}%Ext()"), ("a}b", "%N()_%Name()", "{P}_%Name()"),
+             ("x{y", "%Name()%N()", "%Name(){P}"), ("plain", "%N()_%Name()", "{P}_%Name()"),
+             # a tag that cannot read the files at hand: the failure is the same through the alias
+             ("%Image.Width()", "%N()_%Name()", "{P}_%Name()"), ("%Audio.Title()", "%Upper{%N()}%Ext()", "%Upper{{P}}%Ext()")]
     flagsets = [["-v"], ["-v", "-v"], ["-q"], ["-v", "-q"], []]
     files = ["in/a.txt", "in/b.txt", "in/c.dat", "in/sub/d.txt", "in/sub/e.txt"]
 
